@@ -110,16 +110,29 @@ def main():
         if e.get("status") == "fixed":
             fixed_entries.append(e)
             continue
-        o = OB.REGISTRY.get(e["obligation"])
-        if o is None or (a.only and o.name not in a.only):
-            continue
         if a.tier not in e.get("tiers", ["quick", "thorough"]):
             continue
-        r = native_replay(o.module, o.name, e["witness"], env)
+        targets = [o for o in obs if e["obligation"] == "*" or o.name == e["obligation"]]
+        if not targets:
+            continue
+        # the witness is replayed natively on one obligation whose harness accepts it
+        import inspect as _inspect
+
+        cand = [o for o in targets if o.fn is not None and set(e["witness"]) == set(_inspect.signature(o.fn).parameters)] or targets
+        r = native_replay(cand[0].module, cand[0].name, e["witness"], env)
         if r.get("reproduced"):
             print(f"KNOWN-FINDING: property={pid} {e['id']}: {e['description']}")
             known_active.append(e["id"])
-            exclude.setdefault(o.name, []).append(e["region"])
+            for o in targets:
+                if o.engine == "X" and o.fn is not None:
+                    # a python region only applies to harnesses that have all the arguments it mentions
+                    names = set(compile(e["region"], "<region>", "eval").co_names)
+                    params = set(_inspect.signature(o.fn).parameters)
+                    import sys as _sys
+
+                    if not names <= params | set(vars(_sys.modules[o.module])) | set(dir(__builtins__)):
+                        continue
+                exclude.setdefault(o.name, []).append(e["region"])
         else:
             print(f"note: known finding {e['id']} no longer reproduces; its region is not excluded")
 
@@ -178,6 +191,7 @@ def main():
     traces_validated = 0
     samples = []
     inconclusive = []
+    excluded_shards = []
     for o in obs:
         rec = per_ob[o.name]
         shards = rec["shards"]
@@ -205,6 +219,8 @@ def main():
                 else:
                     harness_errors.append(f"{o.name}[{r.get('shard')}]: counterexample {cex} does not reproduce natively: {rep.get('detail')}")
                     status = "error"
+            elif v == "excluded":
+                excluded_shards.append(f"{o.name}[{r.get('shard')}]")
             elif v in ("unknown",):
                 inconclusive.append(f"{o.name}[{r.get('shard')}]: {r.get('message') or 'not confirmed within budget'}")
                 if status == "confirmed":
@@ -216,7 +232,7 @@ def main():
                 harness_errors.append(f"{o.name}[{r.get('shard')}]: engine error: {r.get('message')} {r.get('traceback', '')[-800:]}")
                 status = "error"
         tw = rec["twin"] or {}
-        if tw.get("verdict") != "refuted":
+        if tw.get("verdict") != "refuted" and not (shards and all(r.get("verdict") == "excluded" for r in shards)):
             harness_errors.append(f"{o.name}: reachability twin not refuted ({tw.get('verdict')}: {tw.get('message')}) — obligation may be vacuous")
         cover.update(tw.get("cover", []))
         missing = [c for c in o.must_cover if c not in cover]
@@ -264,7 +280,7 @@ def main():
         "property_id": pid, "tier": a.tier, "seed": a.seed, "level": "model_checking",
         "coverage": {
             "states": max(tot_paths, 0), "transitions": tot_checks, "traces_validated_against_impl": traces_validated,
-            "samples": samples[:40], "obligations": n_obl, "discharged": n_dis, "inconclusive": inconclusive,
+            "samples": samples[:40], "obligations": n_obl, "discharged": n_dis, "inconclusive": inconclusive, "shards_inside_known_finding_regions": excluded_shards,
             "exhaustive": bool(n_obl and n_obl == n_dis and not harness_errors),
             "solver_seconds": round(tot_solver, 2), "engine_selftest": selftest_summary,
             "obligation_reports": ob_reports, "known_findings_active": known_active,
